@@ -46,7 +46,7 @@ LookupI(t, u, I) ==
     ELSE IF <<t.id, u>> \in I THEN [u |-> u, match |-> TRUE, n |-> u]
     ELSE [u |-> u, match |-> FALSE, n |-> ""]
 
-NoFile == [ok |-> FALSE]
+NoFile == [exists |-> FALSE, ok |-> FALSE]
 Tree(id, g) == [id |-> id, gen |-> g]
 
 Init ==
@@ -91,7 +91,7 @@ Finish ==
            /\ hist' = h2 /\ dexp' = dexp + (IF Mode = "plugin" THEN nc ELSE 0) /\ tf' = tf2 /\ tl' = tl2
            /\ usedGen' = ftree.gen
            /\ verdict' = IF dlaw(keep) # "ok" THEN dlaw(keep)
-                         ELSE IF Flows THEN (IF file2 # NoFile THEN "Flows-Touched" ELSE "ok")
+                         ELSE IF Flows THEN FlowsLaw(file2)
                          ELSE IF olaw # "ok" THEN olaw
                          ELSE IF tlaw # "ok" THEN tlaw
                          ELSE IF ftree.gen < usedGen THEN "Tree-Stale"
